@@ -120,7 +120,7 @@ def judge_pipeline(space, hist, fit_args, pool, preds, out, bs, tag):
     # each returned row must be the snap of a distinct pool row; the predictions of those rows form the multiset of the bs smallest
     used, got = set(), []
     for r in out:
-        cand = [i for i in range(len(pool)) if i not in used and np.array_equal(snapped[i], r)]
+        cand = [int(i) for i in np.flatnonzero((snapped == r).all(axis=1)) if int(i) not in used]
         if not cand:
             v.append(("surrogate-row-not-from-pool", f"{tag}: returned row {r.tolist()} is not the grid snap of a (remaining) pool row"))
             return v
@@ -128,8 +128,61 @@ def judge_pipeline(space, hist, fit_args, pool, preds, out, bs, tag):
         used.add(best)
         got.append(float(preds[best]))
     if sorted(got) != want:
-        v.append(("surrogate-not-lowest-predictions", f"{tag}: returned rows have predictions {sorted(got)}, the {bs} lowest of the pool are {want} (pool predictions {preds.tolist()})"))
+        v.append(("surrogate-not-lowest-predictions", f"{tag}: returned rows have predictions {sorted(got)}, the {bs} lowest of the pool are {want} (pool predictions {preds.tolist() if len(preds) <= 12 else 'of ' + str(len(preds)) + ' candidates'})"))
     return v
+
+
+def bigpool_case(case):
+    """A stub surrogate whose prediction is a FUNCTION of the candidate (distance to the pool row at a chosen position), on pools of
+    thousands of candidates: wherever the best candidates sit in the pool (head, tail, around multiples of 4096), they are returned."""
+    from black_it.samplers.surrogate import MLSurrogateSampler
+
+    space = L.make_space(case["space"])
+    P, bs = case["pool"], case["bs"]
+
+    class Stub(MLSurrogateSampler):
+        target = None
+        pools: list = []
+        fits: list = []
+
+        def sample_candidates(self, *a, **k):
+            pool = np.array(super().sample_candidates(*a, **k))
+            Stub.pools.append(pool.copy())
+            pos = case["pos"] if case["pos"] >= 0 else len(pool) + case["pos"]
+            Stub.target = pool[min(pos, len(pool) - 1)].copy()
+            return pool
+
+        def fit(self, X, y):  # noqa: N803
+            Stub.fits.append((np.array(X).copy(), np.array(y).copy()))
+
+        def predict(self, X):  # noqa: N803
+            return np.sqrt(np.sum(((np.asarray(X, dtype=float) - Stub.target) / (np.abs(Stub.target) + 1.0)) ** 2, axis=1))
+
+    Stub.pools, Stub.fits = [], []
+    kw = {} if P is None else {"candidate_pool_size": P}
+    s = Stub(batch_size=bs, random_state=case["seed"], max_deduplication_passes=0, **kw)
+    hist = L.history(space, 12, "distinct")
+    with quiet():
+        out = np.asarray(s.sample(space, hist[0], hist[1]))
+    pool = Stub.pools[-1]
+    preds = np.sqrt(np.sum(((pool - Stub.target) / (np.abs(Stub.target) + 1.0)) ** 2, axis=1))
+    return judge_pipeline(space, hist, Stub.fits[-1] if Stub.fits else None, pool, preds, out, bs, f"pool of {len(pool)}, batch {bs}, best candidate at pool position {case['pos']}")
+
+
+def bigpool_cell(cell):
+    res = _res()
+    for case in cell["cases"]:
+        vs = bigpool_case(case)
+        res["evaluations"] += 1
+        res["traces"] += 1
+        res["transitions"] += 1
+        res["nontrivial"] += 1
+        res["outcomes"].add(("bigpool", case["pool"] or 1000 * case["bs"], case["bs"]))
+        for key, what in vs:
+            _viol(res, key, f"[stub surrogate predicting a function of the candidate, space={[L.SPECS[i] for i in case['space']]}] {what}", dict(case, mode="bigpool"))
+    res["states"] = res["evaluations"]
+    res["outcomes"] = sorted(res["outcomes"])
+    return res
 
 
 def stub_cell(cell):
@@ -299,7 +352,7 @@ def bestbatch_cell(cell):
 
 
 def run_cell(cell):
-    return {"nomod": nomod_cell, "stub": stub_cell, "real": real_cell, "bestbatch": bestbatch_cell}[cell["kind"]](cell)
+    return {"nomod": nomod_cell, "stub": stub_cell, "real": real_cell, "bestbatch": bestbatch_cell, "bigpool": bigpool_cell}[cell["kind"]](cell)
 
 
 def replay_case(case):
@@ -308,6 +361,8 @@ def replay_case(case):
         vs, _, _ = nomod_case(case)
     elif m == "stub":
         vs = stub_replay(case)
+    elif m == "bigpool":
+        vs = bigpool_case(case)
     elif m == "real":
         vs = [(k + ":" + case["sampler"], w) for k, w in real_surrogate_case(case)]
     else:
@@ -356,10 +411,25 @@ def main(ctx):
     for pr in (2, 6, 11):
         for seed in range(S, S + 4):
             bc.append({"space": [0, 3, 4, 8, 11], "opts": {"perturbation_range": pr, "a": 3.0, "b": 1.0}, "bs": 8, "seed": seed, "n": 40, "pattern": "ties"})
+    # long histories (a partial-sort or chunked path would only be taken there)
+    for n in (999, 1000, 1001, 2500) + (() if ctx.quick else (5000, 20000)):
+        for bs in (4, 10):
+            for pattern in ("distinct", "huge"):
+                bc.append({"space": [0, 3, 4], "opts": {"perturbation_range": 3, "a": 3.0, "b": 1.0}, "bs": bs, "seed": S, "n": n, "pattern": pattern})
     for i in range(16):
         cells.append({"kind": "bestbatch", "cases": bc[i::16]})
+    # large candidate pools (default pool = 1000 x batch size), best candidate at the head, the tail and around multiples of 4096
+    bp = []
+    for P, bs in ((None, 1), (None, 9), (None, 16), (4095, 4), (4097, 4), (8192, 3), (8193, 3), (10000, 4), (20000, 16)) + (() if ctx.quick else ((65537, 8), (100000, 4))):
+        n = P or 1000 * bs
+        for pos in sorted({0, -1, -2, n // 2, 4095 if n > 4096 else 1, 4096 if n > 4097 else 2, 8191 if n > 8192 else 3, 8192 if n > 8193 else 4, n - n % 4096 if n % 4096 and n > 4096 else 5}):
+            bp.append({"space": [0, 3, 4], "pool": P, "bs": bs, "pos": pos, "seed": S})
+    for i in range(8):
+        cells.append({"kind": "bigpool", "cases": bp[i::8]})
     ctx.bounds = {"no_modification": {"samplers": len(L.CHEAP) + len(L.COSTLY), "spaces": len(spaces1 + spaces2), "loss_patterns": ["ties", "huge", "inf", "f32overflow"], "successive_calls": 3},
                   "stub_surrogate": "pool sizes 3..5 (6 thorough), every prediction vector in {0,1,2}^pool, batch sizes 1..3, two calls with different equal-length histories",
+                  "large_pools": "stub surrogate predicting a function of the candidate; pools 1000..20000 (100000 thorough), best candidate at head / tail / around multiples of 4096",
+                  "long_histories_best_batch": "999..2500 rows (20000 thorough)",
                   "real_surrogates": ["GaussianProcess(mean)", "GaussianProcess(EI)", "XGBoost", "RandomForest"], "best_batch": {"cases": len(bc), "perturbation_range": [2, 3, 6], "ab": [(3, 1), (1, 1), (0.5, 2)]}}
     ctx.rule = "one evaluation = one sampler object through its call sequence; non-trivial = histories with ties / extreme losses, prediction vectors with ties"
     ctx.assumptions = ["best-batch oracle has a half-step slack so that it is indifferent to how the result is confined to the space (C03 judges that)",
